@@ -75,6 +75,7 @@ type Exec struct {
 	noResolve   bool
 	Resolved    int
 	initLenient int
+	randSeed    uint64 // differential mode: seed for inputs missing from the concrete vector
 	curInitFn   *ssa.Function
 	fresh       map[string]int
 	inputs      []inputVar
